@@ -1244,6 +1244,25 @@ class Calls(Interp):
                 bs.append(z3.Implies(z3.And(conds), body) if which == "all" else z3.And(conds + [body]))
             return BoolSV(z3.And(bs) if which == "all" else z3.Or(bs)) if bs else BoolSV(which == "all")
         if isinstance(it, RangeV):
+            hi = z3.simplify(it.hi)
+            last = _minus_one(hi)
+            if last is not None and not getattr(self, "_no_split", False):
+                # range(lo, t+1): split off the last element so that the goal matches `range(lo, t)` facts syntactically
+                self.push_bind(g.target, SV(Val.intv(last), "int"), node)
+                try:
+                    conds_l = [self.truthy(self.ev(c), node) for c in g.ifs]
+                    body_l = self.truthy(self.ev(gen.elt), node)
+                finally:
+                    self.pop_bind()
+                self._no_split = True
+                try:
+                    rest = self.quantifier_range(which, gen, node, it.lo, last, qid)
+                finally:
+                    self._no_split = False
+                nonempty = last >= it.lo
+                if which == "all":
+                    return BoolSV(z3.Implies(nonempty, z3.And(rest, z3.Implies(z3.And(conds_l), body_l))))
+                return BoolSV(z3.And(nonempty, z3.Or(rest, z3.And(conds_l + [body_l]))))
             j = z3.Int(qid)
             rng = z3.And(it.lo <= j, j < it.hi)
             elem = SV(Val.intv(j), "int")
@@ -1272,6 +1291,20 @@ class Calls(Interp):
         if which == "all":
             return BoolSV(z3.ForAll(qv, z3.Implies(z3.And([rng] + conds), body)))
         return BoolSV(z3.Exists(qv, z3.And([rng] + conds + [body])))
+
+    def quantifier_range(self, which, gen, node, lo, hi, qid):
+        g = gen.generators[0]
+        j = z3.Int(qid)
+        rng = z3.And(lo <= j, j < hi)
+        self.push_bind(g.target, SV(Val.intv(j), "int"), node)
+        try:
+            conds = [self.truthy(self.ev(c), node) for c in g.ifs]
+            body = self.truthy(self.ev(gen.elt), node)
+        finally:
+            self.pop_bind()
+        if which == "all":
+            return z3.ForAll([j], z3.Implies(z3.And([rng] + conds), body))
+        return z3.Exists([j], z3.And([rng] + conds + [body]))
 
     def quant_lambda(self, which, node):
         """forall(lambda x, y: body)  — x, y range over Val (or Int when named i, j, k, n)"""
@@ -1552,6 +1585,19 @@ class LazyMapV(Value):
         eng.assume(z3.Length(out) == z3.Length(seq))
         eng.assume(z3.ForAll([j], z3.Implies(z3.And(0 <= j, j < z3.Length(seq)), out[j] == body), patterns=[out[j]]))
         return PSeq(out)
+
+
+def _minus_one(t):
+    """t == u + 1 (syntactically, after simplification) -> u"""
+    if z3.is_int_value(t):
+        return None
+    if z3.is_app(t) and t.decl().kind() == z3.Z3_OP_ADD:
+        ch = t.children()
+        consts = [c for c in ch if z3.is_int_value(c)]
+        if len(consts) == 1 and consts[0].as_long() == 1:
+            rest = [c for c in ch if not z3.is_int_value(c)]
+            return rest[0] if len(rest) == 1 else z3.Sum(rest)
+    return None
 
 
 def static_seq_items(t):
